@@ -434,6 +434,15 @@ var gobNestEntries = func() []decodeEntry {
 	return out
 }()
 
+// the types whose decode methods are also driven on receivers that are already populated
+var usedReceiverTypes = func() []reflect.Type {
+	var out []reflect.Type
+	for _, k := range vmodel.Kinds {
+		out = append(out, reflect.TypeOf(k.New()).Elem())
+	}
+	return append(out, vmodel.NlvT, vmodel.IcT)
+}()
+
 type lengthCase struct {
 	Name  string
 	Doc   func(n int) string
@@ -665,6 +674,53 @@ func init() {
 					if step2 > 4*maxInt64(step1, 0)+20000 {
 						c.Fail("work|gob|nesting-super-linear", fmt.Sprintf("%s on gob %s nested 6/12/18 deep allocated %d/%d/%d heap objects: the work is out of proportion to the depth", entry.Name, shape, m[0], m[1], m[2]),
 							map[string]any{"entry": entry.Name, "shape": shape, "mallocs": m})
+					}
+				}},
+				{Name: "used-receivers", N: len(usedReceiverTypes) * 4 * tierN(tier, 12, 120), Run: func(c *Ctx, idx int) {
+					// decoding INTO a value that is already in use (an application re-reads a stored object into the struct it holds): the
+					// receiver is a populated value of the type, its lists and texts with spare capacity, the input the library's own
+					// encoding of another populated value of that type; every decode method the type has; no panic, and the receiver can
+					// be inspected, compared and re-encoded afterwards
+					t := usedReceiverTypes[idx%len(usedReceiverTypes)]
+					m := []string{"UnmarshalJSON", "GobDecode", "UnmarshalBinary", "UnmarshalText"}[(idx/len(usedReceiverTypes))%4]
+					if _, ok := reflect.PointerTo(t).MethodByName(m); !ok {
+						return
+					}
+					g := vmodel.NewGen(newRand(int64(idx)*7 + 3))
+					g.Exact, g.Spare, g.PSet = true, true, 0.5
+					mk := func() reflect.Value {
+						if ki := vmodel.KindIndex(t.Name()); ki >= 0 && t.Kind() == reflect.Struct {
+							return reflect.ValueOf(g.Struct(vmodel.Kinds[ki], 2, true))
+						}
+						p := reflect.New(t)
+						g.Fill(p.Elem(), t, 2)
+						return p
+					}
+					recv, other := mk(), mk()
+					var in []byte
+					enc := map[string]string{"UnmarshalJSON": "MarshalJSON", "GobDecode": "GobEncode", "UnmarshalBinary": "MarshalBinary", "UnmarshalText": "MarshalText"}[m]
+					c.Pending("(*" + t.Name() + ")." + enc + " for a used receiver")
+					if c.Guard(enc, func() {
+						if em := other.MethodByName(enc); em.IsValid() {
+							if res := em.Call(nil); len(res) == 2 && res[1].IsNil() {
+								in = res[0].Bytes()
+							}
+						}
+					}) || len(in) == 0 {
+						return
+					}
+					c.Distinct(fmt.Sprintf("used|%s|%s|%x", t.Name(), m, H64(string(in))), true)
+					c.Pending("(*" + t.Name() + ")." + m + " into a populated receiver :: " + base64.StdEncoding.EncodeToString(in[:minInt(len(in), 200)]))
+					if c.Guard("(*"+t.Name()+")."+m+" into a populated receiver", func() { recv.MethodByName(m).Call([]reflect.Value{reflect.ValueOf(in)}) }) {
+						return
+					}
+					c.Eval(1)
+					c.Count("used-receiver-decodes", 1)
+					if it, ok := recv.Interface().(vocab.Item); ok {
+						for _, op := range allRoOps {
+							c.Pending("follow-up " + op.Name + " after decoding into a populated " + t.Name())
+							c.Guard("follow-up "+op.Name+" after decoding into a populated receiver", func() { _ = op.apply(it, nil) })
+						}
 					}
 				}},
 				{Name: "twin-chain-growth", N: len(twinChainCases), Exhaustive: true, Run: func(c *Ctx, idx int) {
